@@ -468,3 +468,130 @@ func VerifC06MergeKeysToJSON() {
 	}
 	verifCover("C06/merge-json/end")
 }
+
+// ---- JSON -> YAML -> JSON ----
+
+// strings that YAML could mistake for something else, or that need care when written
+var c06Texts = []string{"", "a", "null", "~", "Null", "1", "-1", "1.5", "0x1F", "0o17", "1e3", ".inf", ".nan", "true", "True", "yes", "no", "on", "<<", "=",
+	" ", " a", "a ", "#", "a #b", "#a", "a: b", "a:", ":", "-", "- a", "-a", "?", "? a", "\na", "a\n", "\n", "a\nb", "a\n\nb", "\t", "a\tb", "\ta", "'", "\"", "a'b", "*a", "&a", "!t", "!!str", "%a", "@a", "`a", "|", ">", "|-", "[", "]", "{", "}", "[a]", "{a: b}", ",", "a,b",
+	"---", "...", "--- a", "2001-01-01", "12:30:45", "0", "00", "+1", "1_000", "0b11", "\\", "\\n", "é", "a b", " ", "\U0001F600"}
+
+func c06JSONQuote(s string) string {
+	out := "\""
+	for i := 0; i < len(s); i++ {
+		switch s[i] {
+		case '"':
+			out += "\\\""
+		case '\\':
+			out += "\\\\"
+		case '\n':
+			out += "\\n"
+		case '\t':
+			out += "\\t"
+		default:
+			out += string(s[i : i+1])
+		}
+	}
+	return out + "\""
+}
+
+// a JSON scalar: its text and the canonical rendering the JSON-encoder stub gives the same value
+func c06JSONScalar(name string) (text string, canon string) {
+	switch verifChoice(name+"_kind", 6) {
+	case 0:
+		s := c06Texts[verifChoice(name+"_text", len(c06Texts))]
+		return c06JSONQuote(s), "S(" + s + ")"
+	case 1:
+		n := []string{"0", "1", "-1", "255", "9007199254740991", "-9007199254740991"}[verifChoice(name+"_int", 6)]
+		return n, "I(" + n + ")"
+	case 2:
+		n := []string{"1.5", "-0.25", "1e-7", "1.7976931348623157e+308", "0.1"}[verifChoice(name+"_float", 5)]
+		f, _ := strconv.ParseFloat(n, 64)
+		return n, "F(" + strconv.FormatFloat(f, 'g', -1, 64) + ")"
+	case 3:
+		return "true", "true"
+	case 4:
+		return "false", "false"
+	}
+	return "null", "null"
+}
+
+// VerifC06JSONRoundTrip: a JSON value read by yq's JSON decoder (the real UnmarshalJSON walk over the reader stub of
+// h_jsonstub.go), printed as YAML by the real printer and YAML encoder, read again by the real YAML decoder and
+// written as JSON (the real MarshalJSON over the encoder stub) is the original value: keys and strings from a pool of
+// 80 texts that YAML could mistake for something else, integers, floats, booleans, null, in objects, nested objects
+// and arrays.
+func VerifC06JSONRoundTrip() {
+	shape := verifChoice("shape", verifParam("shapes", 3))
+	var text, canon, class string
+	switch shape {
+	case 0: // {K: V}
+		k := c06Texts[verifChoice("k", len(c06Texts))]
+		vt, vc := c06JSONScalar("v")
+		text = "{" + c06JSONQuote(k) + ":" + vt + "}"
+		canon = "{S(" + k + "):" + vc + "}"
+	case 1: // [V, V2]
+		vt, vc := c06JSONScalar("v")
+		wt, wc := c06JSONScalar("w")
+		text = "[" + vt + "," + wt + "]"
+		canon = "[" + vc + "," + wc + "]"
+	case 2: // a scalar document
+		vt, vc := c06JSONScalar("v")
+		text, canon = vt, vc
+		class = " [a document that is a scalar]"
+	case 3: // {K: {K2: V}, "z": [V]}
+		k := c06Texts[verifChoice("k", len(c06Texts))]
+		k2 := c06Texts[verifChoice("k2", len(c06Texts))]
+		vt, vc := c06JSONScalar("v")
+		if k == "z" {
+			return
+		}
+		text = "{" + c06JSONQuote(k) + ":{" + c06JSONQuote(k2) + ":" + vt + "},\"z\":[" + vt + "]}"
+		canon = "{S(" + k + "):{S(" + k2 + "):" + vc + "},S(z):[" + vc + "]}"
+	default: // [[], {}, [V], {"a": []}]
+		vt, vc := c06JSONScalar("v")
+		text = "[[],{},[" + vt + "],{\"a\":[]}]"
+		canon = "[[],{},[" + vc + "],{S(a):[]}]"
+	}
+	verifObserve("json", text)
+	dec := NewJSONDecoder()
+	if err := dec.Init(strings.NewReader(text)); err != nil {
+		verifFail("C06/json-decoder-init")
+		return
+	}
+	node, err := dec.Decode()
+	verifAssert(err == nil, "C06/json-not-read"+class)
+	if err != nil {
+		return
+	}
+	var sb strings.Builder
+	w := bufio.NewWriter(c17Writer{&sb})
+	printer := NewPrinter(NewYamlEncoder(NewDefaultYamlPreferences()), NewSinglePrinterWriter(w))
+	err = printer.PrintResults(node.AsList())
+	verifAssert(err == nil, "C06/json-to-yaml-failed"+class)
+	if err != nil {
+		return
+	}
+	yamlText := sb.String()
+	verifObserve("yaml", yamlText)
+	ydec := NewYamlDecoder(NewDefaultYamlPreferences())
+	if err := ydec.Init(strings.NewReader(yamlText)); err != nil {
+		verifFail("C06/yaml-decoder-init")
+		return
+	}
+	back, err := ydec.Decode()
+	verifAssert(err == nil, "C06/yaml-made-of-json-not-read-again"+class)
+	if err != nil {
+		return
+	}
+	b, err := back.MarshalJSON()
+	verifAssert(err == nil, "C06/yaml-made-of-json-not-written-as-json"+class)
+	if err != nil {
+		return
+	}
+	verifObserve("back", string(b))
+	verifAssert(string(b) == canon, "C06/json-to-yaml-and-back-changed-the-value"+class)
+	_, err = ydec.Decode()
+	verifAssert(err != nil, "C06/json-to-yaml-made-more-than-one-document"+class)
+	verifCover("C06/json-roundtrip/end")
+}
